@@ -29,6 +29,7 @@ type Mast struct {
 	debug                          bool
 	nodeCache                      NodeCache
 	nodeFormat                     nodeFormat
+	emptied                        bool
 }
 
 type mastNode struct {
@@ -71,6 +72,7 @@ func (m *Mast) savePathForRoot(ctx context.Context, path []pathEntry) error {
 		m.root = path[0].node
 	} else {
 		m.root = nil
+		m.emptied = true
 	}
 	return nil
 }
